@@ -167,6 +167,66 @@ def functions(ctx):
             ctx.fail("types:function-" + ("parameter-rebound" if rebinding else "result"), f"firmware prints {bad[1]!r} where Python prints {bad[0]!r}", replay)
 
 
+def function_hoists(ctx):
+    """locals first assigned in both arms of an if inside helper functions: the hoisted declaration takes the type the local has in THAT body
+    (per function and per call-signature specialisation), whatever other scopes hoisted a name spelled the same before
+    (a local spelled like a module-level name is C01's K01j and is not generated here)"""
+    rng = ctx.rng
+    head = "from Reduino.Communication import SerialMonitor\nmon = SerialMonitor(9600)\n"
+    ARMS = {"int": ("7", "a_int"), "float": ("2.5", "0.25"), "str": ('"pos"', '"neg"'), "param": ("a * 2", "a"), "parf": ("a * 0.5", "1.5")}
+    cases = []
+    pinned = [(True, [("t", "param"), ("t", "str")], ["int", "float"]), (True, [("t", "float"), ("t", "int")], ["int"]), (False, [("t", "param"), ("t", "str")], ["int", "float"]),
+              (True, [("t", "str"), ("t", "param")], ["float", "int"]), (True, [("q", "int"), ("t", "parf"), ("t", "int")], ["int"])]
+    for k in range(ctx.n(40, 300) + len(pinned)):
+        if k < len(pinned):
+            top, fns, kinds = pinned[k]
+        else:
+            top = rng.random() < 0.7
+            fns = [(rng.choice(["t", "t", "q"]), rng.choice(list(ARMS))) for _ in range(rng.randint(1, 3))]
+            kinds = rng.choice([["int"], ["float"], ["int", "float"], ["float", "int"]])
+        lines = ["mode = 3"]
+        if top:
+            lines += ["if mode > 1:", "    gain = 1.5", "else:", "    gain = 2.5", "mon.write(gain)"]
+        calls = ["wi = 3", "wf = 1.5", "wn = -0.75"]
+        for j, (loc, arm) in enumerate(fns):
+            x, y = ARMS[arm]
+            y = "4" if y == "a_int" else y
+            lines += [f"def f{j}(a):", "    if a > 0:", f"        {loc} = {x}", "    else:", f"        {loc} = {y}", f"    return {loc}"]
+            for kd in kinds:
+                for arg in (["wi", "0"] if kd == "int" else ["wf", "wn"]):
+                    nm = f"r{j}_{len(calls)}"
+                    calls += [f"{nm} = f{j}({arg})", f"mon.write({nm})"]
+        cases.append(head + "\n".join(lines + calls) + "\n")
+    outs = [cxx.transpile(s) for s in cases]
+    it = iter(cxx.run_many(ctx, [(cpp, 0, "") for cpp, e in outs if cpp is not None]))
+    for src, (cpp, exc) in zip(cases, outs):
+        replay = {"script": src}
+        if cpp is None:
+            ctx.count("function-hoist:rejected")
+            continue
+        res = next(it)
+        ctx.case(src, nontrivial=True)
+        if res.compile_error:
+            ctx.fail("types:function-hoisted-local-does-not-compile", res.compile_error[:300], replay)
+            continue
+        ev, err = pyoracle.run_script(src, 0)
+        if err is not None:
+            ctx.tie_diff("generator invariant (scripts run under CPython)", replay, repr(err), "")
+            continue
+        ctx.cov["traces_validated_against_impl"] += 1
+        ctx.count("function-hoist:compared")
+        py = [t for t in writes(ev)]
+        fw = [t for t in writes(pyoracle.fw_events(res.trace))]
+        def eq(a, b):
+            try:
+                return same(num_of_py(a), num_of_fw(b))
+            except Exception:  # noqa: BLE001  (text values)
+                return a == b
+        if len(py) != len(fw) or not all(eq(a, b) for a, b in zip(py, fw)):
+            bad = next(((a, b) for a, b in zip(py, fw) if not eq(a, b)), (len(py), len(fw)))
+            ctx.fail("types:function-hoisted-local", f"firmware prints {bad[1]!r} where Python prints {bad[0]!r}", replay)
+
+
 def run(ctx: Ctx) -> int:
     ctx.prove(["Reduino.Props.C02"])
     common.fresh_import()
@@ -244,6 +304,7 @@ def run(ctx: Ctx) -> int:
             else:
                 ctx.fail("types:" + (hz or "unstable").split(":")[0], what, replay)
     functions(ctx)
+    function_hoists(ctx)
     # function results: join of all return expressions
     lits = {"int": "1", "float": "2.5", "bool": "True", "String": '"s"'}
     combos = [c for n in (1, 2, 3) for c in itertools.product(lits, repeat=n)]
